@@ -8,7 +8,7 @@ import gffutils.helpers as H
 import gffutils.interface as I
 from gffutils import constants
 
-from pyvc.core import SInt, SStr, Undecided
+from pyvc.core import SInt, SStr, Val, Undecided
 from pyvc.interp import Interp
 from pyvc import ghostdb, sqlmodel as Q
 from pyvc.harness import model_of, ev
@@ -246,6 +246,9 @@ def unit_counts(U):
             return {"inputs": m, "expected": "count == number iterated == %d" % exp, "observed": "count=%r iterated=%d" % (n, it_n), "violates": n != exp or it_n != exp}
         for p in U.explore(run, it):
             ex = ghostdb.executes(p.ctx)
+            if p.kind != "return" or not ex:
+                U.prove("C11.count[%s].noraise#p%d" % (shape, p.index), "count_features_of_type returns after asking the database (got %s %r)" % (p.kind, p.value), p.pc, z3.BoolVal(False), dict(rvars, ft=ft.z), replay=replay)
+                continue
             st = Q.parse(ex[0][1])
             si = Q.select_info(st.node)
             cols = [Q.expr_text(c) for c, al in si.columns]
@@ -255,6 +258,39 @@ def unit_counts(U):
             U.prove("C11.count[%s].pred#p%d" % (shape, p.index), "count_features_of_type counts exactly the rows features_of_type iterates (same predicate), no join, count() aggregate",
                     list(p.pc), z3.And(Q._zb(cond) == spec, z3.BoolVal(cols == ["count()"] and not si.joins and si.source[1] == "features" and env.pos == len(env.args))),
                     vars_, replay=replay)
+    # the count is read from the table on EVERY call: after a delete (by id string, by Feature) the same call answers anew
+    for how in ("id", "feature"):
+        def run3(ctx, how=how):
+            for c in ft.constraints():
+                ctx.assume(c)
+            db = blank_db()
+            from contracts.common import blank_feature
+            x = SStr([Val(z3.String("x"), nonempty=True)])
+            n1 = it.call(I.FeatureDB.count_features_of_type, [db, ft.sym()], {})
+            it.call(I.FeatureDB.delete, [db, x if how == "id" else blank_feature(id=x, featuretype=ft.sym())], {"make_backup": False})
+            n2 = it.call(I.FeatureDB.count_features_of_type, [db, ft.sym()], {})
+            return n1, n2
+
+        def replay3(m, how=how):
+            import gffutils.feature as F
+            fs = []
+            for i in range(3):
+                f = F.Feature(seqid="c", featuretype="exon", start=10 * i + 1, end=10 * i + 5, attributes={"ID": ["e%d" % i]})
+                f.id = "e%d" % i
+                fs.append(f)
+            db = native_db(fs)
+            a = db.count_features_of_type("exon")
+            db.delete("e1" if how == "id" else db["e1"], make_backup=False)
+            b = db.count_features_of_type("exon")
+            it_n = len(list(db.features_of_type("exon")))
+            return {"inputs": "count('exon'); delete(%s); count('exon') on one FeatureDB object" % ("'e1'" if how == "id" else "db['e1']"), "expected": [3, 2, 2], "observed": [a, b, it_n], "violates": [a, b, it_n] != [3, 2, 2]}
+        for p in U.explore(run3, it):
+            ok = p.kind == "return"
+            if ok:
+                sel = [e for e in ghostdb.executes(p.ctx) if " ".join(str(e[1]).split()).upper().startswith("SELECT")]
+                ok = len(sel) == 2 and " ".join(str(sel[0][1]).split()) == " ".join(str(sel[1][1]).split())
+            U.prove("C11.count.after_delete[%s]#p%d" % (how, p.index), "count_features_of_type asks the table again after a delete() on the same object (one count query per call; nothing remembered across a change)",
+                    [], z3.BoolVal(bool(ok)), {}, replay=replay3)
     for meth, col in (("featuretypes", "featuretype"), ("seqids", "seqid")):
         def run2(ctx, meth=meth):
             db = blank_db()
